@@ -194,7 +194,7 @@ PROPS = {
               "schedule); non-trivial = the writer commits inside the check-to-wait window, or one request touches >=2 subscriptions; distinct by hash of the schedule"),
         assumptions=["bounded-response check of a liveness-flavoured statement (2 s bound, waiter timeout 40 s, every retry timer 10 min away)", "real clock; SQLite: transactions are serial, so transaction-boundary placements are the interleavings",
                      "the external-notifier (PostgreSQL LISTEN/NOTIFY) path is not run"],
-        quick=dict(checks=150, timeout=900),
+        quick=dict(checks=150, timeout=900, shrinktime="10s"),
         thorough=dict(checks=600, shards=8, timeout=3000),
     ),
     "C11": dict(
